@@ -376,9 +376,9 @@ def obligations : List Lean.Name := [
   ``ios_numbers_strictly_increasing, ``ios_runs_numbering_consistent, ``ios_runs_cells_consistent,
   ``ios_insert_by_number, ``ios_delete_by_number, ``ios_reseq_is_numbered,
   ``block_swap_same_semantics, ``blockEq_same_semantics, ``blockEquiv_same_semantics,
-  ``ios_exec_reaches_target, ``ios_plan_converges_no_moves_partial,
+  ``ios_plan_converges_no_moves_partial,
   ``ios_plan_converges_no_suppression_partial, ``ios_plan_shape, ``ios_plan_final_state,
-  ``ios_plan_block_equiv_of_supprOK, ``ios_plan_block_equiv_partial,
+  ``ios_plan_block_equiv_partial,
   ``ios_plan_block_equiv_exact_partial,
   ``ios_remark_suppression_counterexample, ``ios_split_block_move_not_suppressed,
   ``ios_log_change_lost_counterexample]
